@@ -38,7 +38,7 @@ def nontrivial(e):
     return all(e.get(k) != r for k in ("a", "b", "c", "d"))
 
 
-def validate(ctx, module, events, tag, plan_lines=None, cfg=None, matcher=None, lanes_of=None, env_extra=None):
+def validate(ctx, module, events, tag, plan_lines=None, cfg=None, matcher=None, lanes_of=None, env_extra=None, corrupt=None, min_kill=0.5):
     """TLC-validate events; classify rejects. matcher(reject, event) -> known-finding id or None."""
     if not events:
         return []
@@ -48,11 +48,25 @@ def validate(ctx, module, events, tag, plan_lines=None, cfg=None, matcher=None, 
             f.write(json.dumps(e, separators=(",", ":")) + "\n")
     shards, n = vf.split_file(trace, vf.NCPU, ctx.work, tag)
     os.remove(trace)
-    rejects, stats, errors = vf.tlc_validate(module, shards, cfg=cfg, env_extra=env_extra)
+    probe = binding_probe(ctx, events, tag, corrupt=corrupt)
+    rejects, stats, errors = vf.tlc_validate(module, shards + ([probe] if probe else []), cfg=cfg, env_extra=env_extra)
     if errors:
         raise vf.InfraError("TLC trace validation failed on %s (rc=%s):\n%s" % (errors[0][0], errors[0][1], errors[0][2]))
     for s in shards:
         os.remove(s)
+    if probe:
+        # binding demonstration (DESIGN 4.3): recorded events with ONE corrupted result bit must be rejected by the same
+        # trace specification in the same run; they never count as coverage or as violations
+        pst = [st for st in stats if st["_trace"] == probe][0]
+        stats = [st for st in stats if st["_trace"] != probe]
+        killed = len({rj["id"] for rj in rejects if rj["trace"] == probe})
+        rejects = [rj for rj in rejects if rj["trace"] != probe]
+        os.remove(probe)
+        bp = ctx.cov.setdefault("binding_probe", {})
+        bp[tag] = dict(corrupted=pst.get("events", 0), rejected=killed)
+        if pst.get("events", 0) >= 20 and killed < min_kill * pst["events"]:
+            raise vf.InfraError("binding probe: only %d of %d corrupted events were rejected by %s - the trace specification does not constrain the results"
+                                % (killed, pst["events"], module))
     fam = ctx.cov["trace_families"].setdefault(tag, dict(events=0, accepted=0, rejected=0, lanes=0))
     for st in stats:
         fam["events"] += st.get("events", 0)
@@ -103,6 +117,78 @@ def validate(ctx, module, events, tag, plan_lines=None, cfg=None, matcher=None, 
         ctx.violations.append((desc, p))
         out.append((k, op, t, lst))
     return out
+
+
+def flip_result_bit(e, rng):
+    if not (isinstance(e.get("r"), list) and e["r"] and e.get("k") != "fault" and all(isinstance(v, int) for v in e["r"])):
+        return None
+    c = dict(e)
+    r = list(e["r"])
+    j = rng.randrange(len(r))
+    r[j] ^= 1 if max(r) <= 1 else (1 << rng.randrange(8))
+    c["r"] = r
+    return c
+
+
+def binding_probe(ctx, events, tag, k=None, corrupt=None):
+    """copies of up to k recorded events, each corrupted in one observed field (default: one bit of the result row flipped);
+    deterministic in the seed.  Returns the path of the probe trace or None."""
+    import random
+    if os.environ.get("VERIF_NO_PROBE"):
+        return None
+    k = k or ctx.q(64, 256)
+    rng = random.Random(ctx.seed * 7919 + len(events))
+    out = []
+    idx = list(range(len(events)))
+    rng.shuffle(idx)
+    for i in idx:
+        c = (corrupt or flip_result_bit)(events[i], rng)
+        if c is not None:
+            out.append(c)
+            if len(out) >= k:
+                break
+    if not out:
+        return None
+    path = os.path.join(ctx.work, tag + ".probe.ndjson")
+    with open(path, "w") as f:
+        for c in out:
+            f.write(json.dumps(c, separators=(",", ":")) + "\n")
+    return path
+
+
+def stateful_probe(ctx, module, events, tag, corrupt, k=None):
+    """binding demonstration for stateful traces: the recorded trace with up to k events corrupted IN PLACE is validated once more;
+    every corrupted event must be rejected (later events may be rejected as a consequence; they are not counted)."""
+    import random
+    if os.environ.get("VERIF_NO_PROBE"):
+        return
+    k = k or ctx.q(24, 96)
+    rng = random.Random(ctx.seed * 7919 + len(events))
+    idx = list(range(len(events)))
+    rng.shuffle(idx)
+    ev2 = list(events)
+    ids = set()
+    for i in idx:
+        c = corrupt(events[i], rng)
+        if c is not None:
+            ev2[i] = c
+            ids.add(str(c["id"]))
+            if len(ids) >= k:
+                break
+    if not ids:
+        return
+    path = os.path.join(ctx.work, tag + ".sprobe.ndjson")
+    with open(path, "w") as f:
+        for c in ev2:
+            f.write(json.dumps(c, separators=(",", ":")) + "\n")
+    rejects, stats, errors = vf.tlc_validate(module, [path])
+    if errors:
+        raise vf.InfraError("TLC failed on the binding probe of %s rc=%s\n%s" % errors[0])
+    os.remove(path)
+    killed = len(ids & {rj["id"] for rj in rejects})
+    ctx.cov.setdefault("binding_probe", {})[tag] = dict(corrupted=len(ids), rejected=killed, collateral=len({rj["id"] for rj in rejects}) - killed)
+    if len(ids) >= 10 and killed * 2 < len(ids):
+        raise vf.InfraError("binding probe: only %d of %d corrupted events were rejected by %s" % (killed, len(ids), module))
 
 
 def replay_plan(path):
